@@ -72,6 +72,22 @@ func (g *Gen) bigInt() *big.Int {
 
 func genC10(g *Gen) {
 	g.setMode(0)
+	// long integers K * 10^j + tail under every DefaultRoundingMode (the rounding test matrix, gen_grid.go)
+	lg := tailGrid(longJs)
+	g.gridRun(len(lg), 0.25, func(i int) {
+		v := g.longTailInt(lg[i])
+		if g.r.Intn(2) == 0 {
+			v.Neg(v)
+		}
+		for m := 0; m < 6; m++ {
+			g.setMode(m)
+			g.emit(Ev{"op": "FromInt", "v": bigN(v)})
+		}
+		if g.r.Intn(3) == 0 {
+			g.emit(Ev{"op": "FromRat", "num": bigN(v), "den": bigN(big.NewInt(int64(1 + g.r.Intn(9))))})
+		}
+		g.setMode(0)
+	})
 	i64s := []int64{0, 1, -1, math.MaxInt32, math.MinInt32, math.MaxInt64, math.MinInt64, math.MinInt64 + 1, 1 << 53, -(1 << 62)}
 	for !g.w.full() {
 		switch g.r.Intn(9) {
